@@ -350,6 +350,49 @@ def rule3(ctx, rep):
         r.check(uses_doing, f'{vd.qname}:reports-doing', where(vd), "reports the nodes' doing sets", 'view_doing does not report the doing sets')
 
 
+def rule4(ctx, rep):
+    """a released job stays in the dispatch batch until its task messages exist (added after seeded change C04-2 / C03-2:
+    `while _jobs: j = _jobs.pop(0)` drops the job before rerunid()/_put(); when the hand-out raises - the surrounding bare
+    except exists for exactly that - the job is gone although its targets were already moved to do/doing: nothing is in
+    flight, nothing will ever complete, the queue never empties)"""
+    prog = ctx.prog
+    disp = prog.nfunc('dawgie.pl.farm.dispatch')
+    rep.analysed(disp)
+    with rep.rule(
+        'R-C04-4',
+        'a job leaves the dispatch batch (_jobs) only after its run id was obtained and its task messages were queued, so that a failed hand-out is retried on the next tick',
+        floor=1,
+        breaks='an exception during hand-out loses a released unit: it stays "doing" for ever with nothing in flight and the pipeline never quiesces',
+    ) as r:
+        loop, jv = shared.job_loop(prog, disp)
+        fallible = {'dawgie.pl.farm._put', 'dawgie.pl.farm.rerunid'}
+
+        class It(Flow):
+            def __init__(s):
+                super().__init__()
+                s.late = []
+
+            def on_call(s, call, st):
+                sym = prog.callee(call, disp)
+                if isinstance(call.func, ast.Attribute) and call.func.attr in ('remove', 'pop', 'popleft') and shared.resolve_container(prog, disp, call.func.value) == 'dawgie.pl.farm._jobs':
+                    return ('left',)
+                if sym in fallible and st == 'left':
+                    s.late.append(call)
+                return (st,)
+
+        it = It()
+        # the loop header of the `while _jobs: j = _jobs.pop(0)` form belongs to the iteration
+        it.block(loop.body, {'in-batch'})
+        r.instance()
+        r.check(
+            not it.late,
+            f'{disp.qname}:job-leaves-batch-after-hand-out',
+            where(disp, loop),
+            'rerunid()/_put() are only reached while the job is still in _jobs',
+            f'{sorted({norm(c) for c in it.late})} can run (and raise) after the job was already taken out of _jobs: the unit is lost on failure',
+        )
+
+
 def check(ctx):
     rep = Report(
         PID,
@@ -366,6 +409,7 @@ def check(ctx):
     rule1(ctx, rep)
     rule2(ctx, rep)
     rule3(ctx, rep)
+    rule4(ctx, rep)
     return rep
 
 
